@@ -9,6 +9,14 @@ from . import ops
 from .ops import wrap_int, wrap_bool, int_term, truth, truth_term, pyraise
 
 
+class SDecStr(Sym):
+    """str(n) for a symbolic int n: a decimal numeral string; int() of it gives n back"""
+    pytype = str
+
+    def __init__(self, t):
+        self.t = t
+
+
 class SymRange:
     def __init__(self, start, stop):
         self.start = start
@@ -65,8 +73,23 @@ def binop(ip, op, a, b):
                 r = ops.seq_concat(r, b)
             return r
     if op == 'Mod' and isinstance(a, str):
-        # '%' formatting with symbolic operands: only used for messages; content not modelled
-        return a
+        import re
+        specs = re.findall(r'%0(\d+)x', a)
+        vals = list(b) if isinstance(b, tuple) else [b]
+        if specs and re.fullmatch(r'(%0\d+x)+', a) and len(specs) == len(vals) and all(isinstance(v, (int, SInt)) for v in vals) \
+                and all(int(w) % 2 == 0 for w in specs):
+            # '%0Nx' of a non-negative integer below 16^N: exactly N lower-case hex digits
+            from . import strings
+            out = ''
+            for w, v in zip(specs, vals):
+                w = int(w)
+                t = int_term(v)
+                if not ctx.branch(z3.And(t >= 0, t < z3.IntVal(16 ** w))):
+                    raise Unsupported('%%0%dx of a value outside [0, 16^%d)' % (w, w))
+                out = ops.seq_concat(out, strings.hex_of(ip, int_to_bytes(ip, v, w // 2, 'big')))
+            return out
+        # other '%' formatting with symbolic operands (messages): the text is not modelled and must not be inspected
+        return Opaque('formatted-string', str)
     if op == 'Mod' and isinstance(a, bytes):
         raise Unsupported('bytes % formatting with symbolic operands')
     raise Unsupported('binary %s on %s and %s' % (op, pytype_of(a).__name__, pytype_of(b).__name__))
@@ -501,6 +524,9 @@ def call_method(ip, obj, name, args, kwargs):
         return stream_method(ip, obj, name, args, kwargs)
     if isinstance(obj, HashObj):
         return hash_method(ip, obj, name, args, kwargs)
+    for k, fn in ip.reg.sym_methods.items():
+        if isinstance(obj, k):
+            return fn(ip, obj, name, args, kwargs)
     if isinstance(obj, (SInt, SBool)) or (isinstance(obj, int) and not isinstance(obj, bool)):
         if name == 'to_bytes':
             return int_to_bytes(ip, obj, *args, **kwargs)
@@ -808,6 +834,8 @@ def call_builtin_type(ip, cls, args, kwargs):
         x = args[0]
         if isinstance(x, (SInt,)):
             return x
+        if isinstance(x, SDecStr):
+            return wrap_int(x.t)
         if isinstance(x, SBool):
             return wrap_int(int_term(x))
         if isinstance(x, SFloat):
@@ -870,8 +898,9 @@ def call_builtin_type(ip, cls, args, kwargs):
         if args and isinstance(args[0], SStr):
             return args[0]
         if args and isinstance(args[0], (SInt, SBool)):
-            from . import strings
-            return strings.str_of_int(ip, args[0])
+            return SDecStr(int_term(args[0]))
+        if args and isinstance(args[0], SDecStr):
+            return args[0]
         if args and isinstance(args[0], Sym):
             raise Unsupported('str(%r)' % args[0])
         return ip.native(str, args, kwargs)
@@ -1137,6 +1166,13 @@ def install_default_models(reg):
     M[print] = lambda ip, a, k: None
     import io
     M[io.BytesIO] = m_bytesio
+    import copy
+
+    def m_deepcopy(ip, args, kwargs):
+        from .verify import snapshot
+        return snapshot(args[0])
+    M[copy.deepcopy] = m_deepcopy
+    M[copy.copy] = lambda ip, a, k: (Rec(a[0].cls, dict(a[0].attrs)) if isinstance(a[0], Rec) else copy.copy(a[0]))
     import hashlib
     M[hashlib.sha256] = _hash_model('sha256', hashlib.sha256)
     M[hashlib.sha1] = _hash_model('sha1', hashlib.sha1)
